@@ -233,3 +233,156 @@ Proof.
   rewrite existsb_map. induction idx as [|x t IH]; cbn [existsb]; [reflexivity|].
   rewrite IH, Zeqb_of_nat, Nat.eqb_sym. reflexivity.
 Qed.
+
+(** * Float arrays given as [map (fun z => VQ (f z)) l] *)
+From Coq Require Import String.
+Local Open Scope string_scope.
+Definition qcmp (op : cmpop) (x y : Q) : bool :=
+  match op with
+  | CLt => Qltb x y | CLe => Qleb x y | CGt => Qltb y x | CGe => Qleb y x
+  | CEq => Qeqb x y | CNe => negb (Qeqb x y)
+  end.
+
+Lemma Qcompare_inject_Z a b : (inject_Z a ?= inject_Z b)%Q = (a ?= b)%Z.
+Proof. unfold Qcompare, inject_Z. cbn [Qnum Qden]. rewrite !Z.mul_1_r. reflexivity. Qed.
+
+Lemma cmp_val_toQ op a b x y : toQ a = Some x -> toQ b = Some y -> cmp_val op a b = Some (qcmp op x y).
+Proof.
+  destruct a, b; cbn [toQ]; intros Ha Hb; try discriminate; injection Ha as <-; injection Hb as <-;
+    try reflexivity.
+  cbn [cmp_val]. f_equal. unfold qcmp, Qltb, Qleb, Qeqb, Z.ltb, Z.leb. rewrite !Qcompare_inject_Z.
+  destruct op; try reflexivity.
+  - rewrite Z.eqb_compare. reflexivity.
+  - rewrite Z.eqb_compare. reflexivity.
+Qed.
+
+Lemma cmp_bc_scalar op a b x y : toQ a = Some x -> toQ b = Some y -> cmp_bc op a b = Some (VB (qcmp op x y)).
+Proof.
+  intros Ha Hb. unfold cmp_bc. rewrite (cmp_val_toQ op a b x y Ha Hb).
+  destruct a, b; cbn [toQ] in Ha, Hb; try discriminate; reflexivity.
+Qed.
+
+Lemma cmp_bc_arrQ {A} op (f : A -> Q) (l : list A) b y :
+  toQ b = Some y ->
+  cmp_bc op (VA (map (fun z => VQ (f z)) l)) b = Some (VA (map (fun z => VB (qcmp op (f z) y)) l)).
+Proof.
+  intros Hb. unfold cmp_bc.
+  rewrite (map_opt_map_some _ _ (fun z => VB (qcmp op (f z) y))).
+  - destruct b; cbn [toQ] in Hb; try discriminate; reflexivity.
+  - intros z. rewrite (cmp_val_toQ op (VQ (f z)) b (f z) y eq_refl Hb). reflexivity.
+Qed.
+
+Lemma binop_arrQ_mod {A} (f : A -> Q) (l : list A) (k : positive) :
+  binop_val Mod (VA (map (fun z => VQ (f z)) l)) (VZ (Zpos k)) =
+  Some (VA (map (fun z => VQ (qmod (f z) (inject_Z (Zpos k)))) l)).
+Proof. unfold binop_val. rewrite (map_opt_map_some _ _ (fun z => VQ (qmod (f z) (inject_Z (Zpos k))))); reflexivity. Qed.
+
+Lemma binop_arrQ_add {A} (f : A -> Q) (l : list A) (k : Z) :
+  binop_val Add (VA (map (fun z => VQ (f z)) l)) (VZ k) = Some (VA (map (fun z => VQ (f z + inject_Z k)%Q) l)).
+Proof. unfold binop_val. rewrite (map_opt_map_some _ _ (fun z => VQ (f z + inject_Z k)%Q)); reflexivity. Qed.
+
+Lemma binop_arrQ_sub {A} (f : A -> Q) (l : list A) (k : Z) :
+  binop_val Sub (VA (map (fun z => VQ (f z)) l)) (VZ k) = Some (VA (map (fun z => VQ (f z - inject_Z k)%Q) l)).
+Proof. unfold binop_val. rewrite (map_opt_map_some _ _ (fun z => VQ (f z - inject_Z k)%Q)); reflexivity. Qed.
+
+Lemma call_np_any {A} (p : A -> bool) (l : list A) :
+  call "np.any" [VA (map (fun z => VB (p z)) l)] = Some (Some (VB (existsb p l))).
+Proof.
+  cbn -[unB existsb]. rewrite unB_map, existsb_map. reflexivity.
+Qed.
+
+(** np.where(cond, k, x) on a float array x *)
+Lemma call_np_where {A} (c : A -> bool) (f : A -> Q) (k : Z) (l : list A) :
+  call "np.where" [VA (map (fun z => VB (c z)) l); VZ k; VA (map (fun z => VQ (f z)) l)] =
+  Some (Some (VA (map (fun z => VQ (if c z then inject_Z k else f z)) l))).
+Proof.
+  cbn -[bc_list where3 to_array has_Q List.length].
+  unfold bc_list. rewrite !map_length, Nat.eqb_refl.
+  assert (W : where3 (map (fun z => VB (c z)) l) (repeat (VZ k) (List.length l)) (map (fun z => VQ (f z)) l) =
+              Some (map (fun z => if c z then VZ k else VQ (f z)) l)).
+  { induction l as [|x t IH]; [reflexivity|]. cbn [map List.length repeat where3]. rewrite IH. reflexivity. }
+  rewrite W.
+  destruct l as [|x t]; [reflexivity|].
+  assert (H : has_Q (VZ k) || has_Q (VA (map (fun z => VQ (f z)) (x :: t))) = true) by reflexivity.
+  rewrite H. cbn [to_array].
+  rewrite (map_opt_map_some _ _ (fun z => VQ (if c z then inject_Z k else f z))); [reflexivity|].
+  intros z. destruct (c z); reflexivity.
+Qed.
+
+Lemma rect_arrQ {A} (f : A -> Q) (l : list A) : rect (VA (map (fun z => VQ (f z)) l)) = true.
+Proof.
+  cbn [rect]. apply andb_true_intro. split.
+  - induction l; cbn; auto.
+  - destruct l as [|x t]; cbn [map]; [reflexivity|]. induction t; cbn; auto.
+Qed.
+
+Lemma shape_arrQ {A} (f : A -> Q) (l : list A) : shape_of (VA (map (fun z => VQ (f z)) l)) = [List.length l].
+Proof. cbn [shape_of]. rewrite map_length. destruct l; reflexivity. Qed.
+
+Lemma to_array_arrQ {A} cast (f : A -> Q) (l : list A) :
+  to_array cast (VA (map (fun z => VQ (f z)) l)) = Some (VA (map (fun z => VQ (f z)) l)).
+Proof. cbn [to_array]. rewrite (map_opt_map_some _ _ (fun z => VQ (f z))); reflexivity. Qed.
+
+(** np.array((lon, lat)) for two float arrays of the same List.length *)
+Lemma np_array_coords {A B} (f : A -> Q) (g : B -> Q) (l1 : list A) (l2 : list B) :
+  List.length l1 = List.length l2 ->
+  np_array (VL [VA (map (fun z => VQ (f z)) l1); VA (map (fun z => VQ (g z)) l2)]) =
+  Some (VA [VA (map (fun z => VQ (f z)) l1); VA (map (fun z => VQ (g z)) l2)]).
+Proof.
+  intros H. unfold np_array.
+  set (a := VA (map (fun z => VQ (f z)) l1)). set (b := VA (map (fun z => VQ (g z)) l2)).
+  assert (R : rect (VL [a; b]) = true).
+  { change (rect (VL [a; b])) with ((rect a && (rect b && true)) && (shape_eqb (shape_of b) (shape_of a) && true)).
+    subst a b. rewrite !rect_arrQ, !shape_arrQ, H. cbn. rewrite Nat.eqb_refl. reflexivity. }
+  rewrite R.
+  change (to_array (has_Q (VL [a; b])) (VL [a; b]))
+    with (option_map VA (match to_array (has_Q (VL [a; b])) a, (match to_array (has_Q (VL [a; b])) b with Some y => Some [y] | None => None end) with
+                         | Some y, Some r => Some (y :: r) | _, _ => None end)).
+  subst a b. rewrite !to_array_arrQ. reflexivity.
+Qed.
+
+(** coordinates[0] = longitude, both float arrays over the same index list *)
+Lemma set_item_row {A B} (f h : A -> Q) (g : B -> Q) (l1 : list A) (l2 : list B) :
+  set_item (VA [VA (map (fun z => VQ (f z)) l1); VA (map (fun z => VQ (g z)) l2)]) 0
+           (VA (map (fun z => VQ (h z)) l1)) =
+  Some (Some (VA [VA (map (fun z => VQ (h z)) l1); VA (map (fun z => VQ (g z)) l2)])).
+Proof.
+  cbn -[store_cast]. unfold store_cast.
+  rewrite rect_arrQ, to_array_arrQ, !shape_arrQ.
+  assert (S : shape_eqb [List.length l1] [List.length l1] = true) by (cbn; rewrite Nat.eqb_refl; reflexivity).
+  rewrite S.
+  destruct l1 as [|x t]; [|reflexivity].
+  assert (E : has_Q (VA (map (fun z : A => VQ (h z)) [])) = false) by reflexivity.
+  rewrite E, andb_false_r. reflexivity.
+Qed.
+
+Lemma existsb_or_forallb {A} (p q : A -> bool) l :
+  existsb p l || existsb q l = negb (forallb (fun x => negb (p x) && negb (q x)) l).
+Proof.
+  induction l as [|x t IH]; [reflexivity|]. cbn [existsb forallb].
+  rewrite negb_andb, <- IH. destruct (p x), (q x), (existsb p t), (existsb q t); reflexivity.
+Qed.
+
+Global Instance scaled_if (s : positive) (c : bool) x y a b :
+  Scaled s x a -> Scaled s y b -> Scaled s (if c then x else y) (if c then a else b).
+Proof. destruct c; auto. Qed.
+
+Lemma val_eqb_arrQ {A} (f g : A -> Q) (l : list A) :
+  (forall z, Qeqb (f z) (g z) = true) ->
+  val_eqb (VA (map (fun z => VQ (f z)) l)) (VA (map (fun z => VQ (g z)) l)) = true.
+Proof.
+  intros H. cbn [val_eqb]. induction l as [|x t IH]; [reflexivity|].
+  cbn [map]. cbn [val_eqb]. rewrite H. exact IH.
+Qed.
+
+Lemma call_np_array v a : np_array v = Some a -> call "np.array" [v] = Some (Some a).
+Proof. intros H. cbn -[np_array]. rewrite H. reflexivity. Qed.
+
+Lemma val_eqb_VL2 a b a' b' : val_eqb (VL [a; b]) (VL [a'; b']) = val_eqb a a' && val_eqb b b'.
+Proof. cbn [val_eqb]. rewrite andb_true_r. reflexivity. Qed.
+
+Lemma val_eqb_VA2 a b a' b' : val_eqb (VA [a; b]) (VA [a'; b']) = val_eqb a a' && val_eqb b b'.
+Proof. cbn [val_eqb]. rewrite andb_true_r. reflexivity. Qed.
+
+Lemma Qeqb_refl x : Qeqb x x = true.
+Proof. apply Qeqb_spec. reflexivity. Qed.
